@@ -177,6 +177,7 @@ pub mod proofs {
 
     /// 2 producers (1 send each), 1 consumer (2 recvs), K = 3, <= 1 spurious CAS failure.
     #[kani::proof]
+    #[kani::stub(core::hint::spin_loop, crate::common::spin_stub)]
     #[kani::stub(alloc::alloc::dealloc_nonnull, noop_dealloc)]
     #[kani::unwind(7)]
     pub fn c07_lr_p2_c1_k3() {
@@ -208,6 +209,7 @@ pub mod proofs {
     /// handler running on two threads), one send each; the channel is dropped
     /// afterwards.  K = 3, <= 1 spurious CAS failure.
     #[kani::proof]
+    #[kani::stub(core::hint::spin_loop, crate::common::spin_stub)]
     #[kani::stub(alloc::alloc::dealloc_nonnull, noop_dealloc)]
     #[kani::unwind(7)]
     pub fn c07_lr_p2_k3() {
@@ -230,6 +232,7 @@ pub mod proofs {
 
     /// 1 producer (2 sends), 1 consumer (2 recvs), K = 3.
     #[kani::proof]
+    #[kani::stub(core::hint::spin_loop, crate::common::spin_stub)]
     #[kani::stub(alloc::alloc::dealloc_nonnull, noop_dealloc)]
     #[kani::unwind(7)]
     pub fn c07_lr_p1x2_c1_k3() {
@@ -257,6 +260,7 @@ pub mod proofs {
     /// Reuse of a cell: the consumer takes the only queued value, the producer's
     /// send then reuses that very cell (only one index circulates).
     #[kani::proof]
+    #[kani::stub(core::hint::spin_loop, crate::common::spin_stub)]
     #[kani::stub(alloc::alloc::dealloc_nonnull, noop_dealloc)]
     #[kani::unwind(7)]
     pub fn c07_lr_reuse_k3() {
